@@ -148,11 +148,17 @@ class OutgoingBallsHandler(BallDeviceStateHandler):
         except asyncio.TimeoutError:
             has_timeouted = True
 
+        # The source may have run into its ball_missing_timeout in the same instant and reported the ball as lost
+        # already. In that case the ball has been added to the playfield by the source. Do not confirm it again.
+        still_expected = incoming_skipping_ball in self._incoming_ball_which_may_skip_obj
+
         # if we got an confirm
-        if (confirm_future.done() and not confirm_future.cancelled()) or has_timeouted:
+        if (confirm_future.done() and not confirm_future.cancelled()) or (has_timeouted and still_expected):
             self.info_log("Got confirm for skipping ball.")
-            await self._handle_eject_success(eject_request)
+            # mark the ball as arrived before we yield. otherwise, the source might still run into its
+            # ball_missing_timeout and count the ball a second time.
             incoming_skipping_ball.ball_arrived()
+            await self._handle_eject_success(eject_request)
             if add_ball_to_target:
                 target.available_balls += 1
             return True
@@ -530,6 +536,10 @@ class OutgoingBallsHandler(BallDeviceStateHandler):
             event = await Util.first([ball_return_future, unknown_balls_future, eject_success_future],
                                      timeout=timeout)
         except asyncio.TimeoutError:
+            if incoming_ball_at_target.has_arrived:
+                # the ball got confirmed in the same instant in which we ran into the timeout
+                await self._handle_eject_success(eject_request)
+                return True
             # handle lost ball
             incoming_ball_at_target.did_not_arrive()
             await self._failed_eject(eject_request, eject_try, True)
